@@ -1,3 +1,4 @@
+import PRV.Model.Relay
 import PRV.Props.C06
 /-
 C13 — Ending a session releases everything; resources stay bounded meanwhile.
@@ -167,5 +168,73 @@ theorem released_is_final (l : Life) (k : String) (h : l.phase = .released k) :
   · unfold minerClose; simp [h]
   · unfold shutdown; simp [h]
   · intro p; unfold poolClose; simp [h]
+
+/-! ### a single relay loop (Model/Relay.lean) -/
+
+section Relay
+open PRV.Model.Relay
+
+/-- no pipe the proxy has let go of is still running -/
+def Inv (r : Relay) : Prop := ∀ p ∈ r.old, p.s2d ≠ .running ∧ p.d2s ≠ .running
+
+theorem stop_not_running (d : Dir) : d.stop ≠ .running := by cases d <;> simp [Dir.stop]
+
+theorem step_inv (r : Relay) (op : Op) (h : Inv r) : Inv (step true r op) := by
+  cases op with
+  | runStart =>
+    intro p hp
+    simp only [step] at hp
+    rcases List.mem_append.mp hp with hp | hp
+    · cases hc : r.cur with
+      | none => simp [hc] at hp
+      | some q =>
+        simp only [hc, if_true, List.mem_singleton] at hp
+        subst hp
+        exact ⟨stop_not_running _, stop_not_running _⟩
+    · exact h p hp
+  | destError => exact h
+  | sourceError => exact h
+  | renew =>
+    cases hc : r.cur with
+    | none => simpa [step, hc] using h
+    | some q =>
+      intro p hp
+      simp only [step, hc, List.mem_cons] at hp
+      rcases hp with hp | hp
+      · subst hp; exact ⟨stop_not_running _, stop_not_running _⟩
+      · exact h p hp
+  | setDest => exact h
+  | runExit => exact h
+
+theorem reachable_inv (ops : List Op) : Inv (run true ops) := by
+  have : ∀ (r : Relay), Inv r → Inv (ops.foldl (step true) r) := by
+    induction ops with
+    | nil => intro r h; exact h
+    | cons o os ih => intro r h; exact ih _ (step_inv r o h)
+  exact this {} (by intro p hp; simp at hp)
+
+/-- **a single relay loop**: whatever sequence of starts, failures, reconnects, changes of destination and exits a
+session goes through, at most one goroutine reads the miner's connection and at most one relays from a pool -/
+theorem single_relay_loop (ops : List Op) :
+    sourceReaders (run true ops) ≤ 1 ∧ destReaders (run true ops) ≤ 1 := by
+  have h := reachable_inv ops
+  generalize run true ops = r at h
+  have hs : (r.old.filter fun p => p.s2d = .running) = [] := by
+    apply List.filter_eq_nil_iff.mpr; intro p hp; simpa using (h p hp).1
+  have hd : (r.old.filter fun p => p.d2s = .running) = [] := by
+    apply List.filter_eq_nil_iff.mpr; intro p hp; simpa using (h p hp).2
+  unfold sourceReaders destReaders pipes
+  simp only [List.filter_append, hs, hd, List.append_nil]
+  constructor <;> (cases r.cur <;> simp [List.filter] <;> split <;> simp)
+
+/-- before commit 900d8c3: `Run`, started again after it had exited with a destination error and the scheduler had
+changed back to the primary destination, left the old pipe reading the miner's connection next to the new one -/
+theorem run_restart_two_readers_before_fix :
+    sourceReaders (run false [.runStart, .destError, .runExit, .setDest, .runStart]) = 2 := by decide
+
+example : sourceReaders (run true [.runStart, .destError, .runExit, .setDest, .runStart]) = 1 := by decide
+
+
+end Relay
 
 end PRV.Props.C13
